@@ -1,0 +1,20 @@
+//go:build verif
+
+// Contract for tcpServer.Handle (C15), checked by nsqvc. Comment-only file.
+// Ghosts: rfErr (error of the most recent io.ReadFull), closedConn (connection closed last), wN / wErrs (bytes written / failed
+// writes, codec.spec), mIOLoops / mLoopProt / mLoopClient (.trusted/mlookupd.spec).
+// The protocol magic itself (string(buf)) cannot be named in a clause (ENGINE GAPS), so the three outcomes are told apart by
+// what is observable: whether the protocol loop ran, and whether the 4-byte read failed.
+
+package nsqlookupd
+
+//@ func (p *tcpServer) Handle(conn net.Conn)
+//@   props C15
+//@   requires[wired] p != nil && p.nsqlookupd != nil && p.nsqlookupd.DB != nil && p.nsqlookupd.opts != nil && conn != nil
+//@   ensures[at-most-one-loop] mIOLoops == old(mIOLoops) || mIOLoops == old(mIOLoops) + 1
+//@   ensures[not-served-means-closed] mIOLoops == old(mIOLoops) ==> closedConn == conn
+//@   ensures[short-read-closes-silently] mIOLoops == old(mIOLoops) && rfErr != nil ==> wN == old(wN) && wCalls == old(wCalls)
+//@   ensures[bad-magic-answered] mIOLoops == old(mIOLoops) && rfErr == nil ==> wN > old(wN) || wErrs > old(wErrs)
+//@   ensures[bad-magic-frame] mIOLoops == old(mIOLoops) && rfErr == nil && wErrs == old(wErrs) ==> wN == old(wN) + 4 + 14 && sbe32(wOut, old(wN)) == 14
+//@   ensures[served-by-v1-on-this-conn] mIOLoops == old(mIOLoops) + 1 ==> dyntype(mLoopProt) == typetag("*LookupProtocolV1") && unbox(mLoopProt, "*LookupProtocolV1").nsqlookupd == old(p.nsqlookupd) &&
+//@        dyntype(mLoopClient) == typetag("*ClientV1") && unbox(mLoopClient, "*ClientV1").Conn == conn
